@@ -1256,6 +1256,165 @@ def check_continuous(case):
                 parts=dict(sharp=worst, quadrature=quad, end=endfrac))
 
 
+# ------------------------------------------------------------------ several continuous burns, firing together or not
+
+PATTERNS = ["nested", "straddle", "same_start", "same_window", "back_to_back", "disjoint", "three"]
+
+
+@st.composite
+def overlap_case(draw):
+    """Two or three continuous burns whose windows are nested, straddle each other, start together, coincide, follow
+    each other without a gap, or are apart (control); listed in a drawn order.  Each keeps its own axes, mode, date_pos."""
+    el = draw(go.elements(hyperbolic=False, emax_ell=0.7, rp_range=(1.03, 8.0)))
+    h_us, _ = draw(grid())
+    pattern = draw(st.sampled_from(PATTERNS))
+    lead = draw(st.integers(2, 3))
+    sa = draw(instant(h_us, lead * h_us, (lead + 1) * h_us))
+    da = draw(go.uniform_int(4 * h_us, 12 * h_us))
+    if pattern in ("nested", "three"):
+        sb = sa + draw(go.uniform_int(h_us // 2, da // 3))
+        db = draw(go.uniform_int(da // 4, da - (sb - sa) - h_us // 2))
+    elif pattern == "straddle":
+        sb = sa + draw(go.uniform_int(da // 3, da - h_us))
+        db = draw(go.uniform_int(da // 2, da))
+    elif pattern == "same_start":
+        sb, db = sa, draw(go.uniform_int(2 * h_us, 10 * h_us))
+    elif pattern == "same_window":
+        sb, db = sa, da
+    elif pattern == "back_to_back":
+        sb, db = sa + da, draw(go.uniform_int(2 * h_us, 8 * h_us))
+    else:
+        sb = sa + da + draw(go.uniform_int(h_us // 2, 3 * h_us))
+        db = draw(go.uniform_int(2 * h_us, 8 * h_us))
+    wins = [(sa, da), (sb, db)]
+    if pattern == "three":
+        sc = sa + draw(go.uniform_int(0, da // 2))
+        wins.append((sc, draw(go.uniform_int(2 * h_us, da))))
+    if draw(st.integers(0, 3)) == 0:   # every edge on the grid
+        wins = [((s_ // h_us) * h_us, max(1, round(d_ / h_us)) * h_us) for s_, d_ in wins]
+    burns = [dict(start=s_, dur=d_ + (d_ % 2), dv=draw(vec3(-2.0, 1.0)), tag=draw(st.sampled_from(TAGS)),
+                  mode=draw(st.sampled_from(["dv", "accel"])), date_pos=draw(st.sampled_from(["start", "stop", "median"])))
+             for s_, d_ in wins]
+    order = draw(st.permutations(list(range(len(burns)))))
+    n = -(-max(b["start"] + b["dur"] for b in burns) // h_us) + draw(st.integers(2, 3))
+    return dict(el=el, h_us=h_us, n=n, burns=burns, order=list(order), pattern=pattern, t0=draw(epochs(n * h_us)),
+                sp=draw(spellings(len(burns), methods=("rk4",), bodies=("Earth", "Earth", "Earth", "Moon"))))
+
+
+def check_overlap(case):
+    from beyond.dates import timedelta
+    from beyond.orbits.man import ContinuousMan
+
+    sp = dict(case.get("sp") or {})
+    if sp.get("together") == "appended-later":
+        sp["together"] = "alone"
+    body_name = sp.get("body", "Earth")
+    mu = mu_of_body(body_name)
+    el = case["el"]
+    if body_name != "Earth":
+        el = dict(el, a=el["a"] * go.RADIUS[body_name] / go.RADIUS["Earth"])
+    c0 = cart(el, mu)
+    d0 = epoch_of(case, sp)
+    h_us, n = case["h_us"], case["n"]
+    h = h_us / 1e6
+    cap = dv_cap(c0, n * h, mu) / len(case["burns"])
+    mans, sched = [], []
+    inexact = d0.scale.name in ("UT1", "TDB")
+    for k, b in enumerate(case["burns"]):
+        secs = b["dur"] / 1e6
+        dvv = np.array(b["dv"], float)
+        if float(np.linalg.norm(dvv)) > cap:
+            dvv = dvv * cap / float(np.linalg.norm(dvv))
+        shift = {"start": 0, "median": b["dur"] // 2, "stop": b["dur"]}[b["date_pos"]]
+        date = relabel(d0 + timedelta(microseconds=b["start"] + shift), (sp.get("man_scales") or [None] * 9)[k])
+        how = (sp.get("dv_as") or ["list"] * 9)[k]
+        if how in ("f32", "int"):
+            how = "list"
+        if b["mode"] == "dv":
+            obj, numbers = dv_spelling(dvv, how)
+            acc = np.array(numbers, float) / secs
+            man = ContinuousMan(date, timedelta(microseconds=b["dur"]), dv=obj, frame=b["tag"], date_pos=b["date_pos"])
+        else:
+            obj, numbers = dv_spelling(dvv / secs, how)
+            acc = np.array(numbers, float)
+            man = ContinuousMan(date, timedelta(microseconds=b["dur"]), accel=obj, frame=b["tag"], date_pos=b["date_pos"])
+        inexact = inexact or man.date.scale.name in ("UT1", "TDB")
+        mans.append(man)
+        sched.append((b["start"], b["start"] + b["dur"], acc, b["tag"].upper() if b["tag"] else None))
+    ys = run_library(c0, d0, h_us, n, [mans[i] for i in case["order"]], sp)
+    res = defects(ys, h, mu)
+    eps_us = (3 + int(1e-3 * n * h)) if inexact else 0
+    edges = sorted({t for s_ in sched for t in s_[:2]})
+    vnorm = float(np.linalg.norm(ys[0][3:]))
+    floor = 1e-13 * vnorm
+    worst, together, alone_steps, edge_steps = 0.0, 0, 0, 0
+    for j in range(n):
+        lo, hi = j * h_us, (j + 1) * h_us
+        if any(lo - eps_us <= t <= hi + eps_us for t in edges) and not all(t in (lo, hi) and eps_us == 0 for t in edges
+                                                                            if lo - eps_us <= t <= hi + eps_us):
+            edge_steps += 1
+            continue
+        # (an edge exactly on a grid point: the window is [start, stop), so the step that starts there belongs to the
+        # new regime and the one that ends there to the old one - but Runge-Kutta's last stage sits ON the edge:
+        # such steps are set aside as well)
+        if any(t in (lo, hi) for t in edges):
+            edge_steps += 1
+            continue
+        active = [(s_[2], s_[3]) for s_ in sched if s_[0] <= lo and hi <= s_[1]]
+        dv = float(np.linalg.norm(res[j][3:]))
+        if not active:
+            tr, tv = quiet_tol(ys[j + 1])
+            dr = float(np.linalg.norm(res[j][:3]))
+            worst = max(worst, dr / tr, dv / tv)
+            if dr > tr or dv > tv:
+                raise Violation("burn-outside-window", f"step {j} -> {j + 1} touches no burn but departs by {dv:.6g} m/s "
+                                f"from a free step", step=j)
+            continue
+        amag = sum(float(np.linalg.norm(a)) for a, _ in active)
+        theta = theta_of(ys, j, h, mu) + amag * h / min(vperp(ys[j]), vperp(ys[j + 1]))
+        arc, err = ig.burn_multi(ys[j], h, mu, active)
+        want = arc - tb.propagate_uv(ys[j], h, mu)
+        d = float(np.linalg.norm(res[j][3:] - want[3:]))
+        tol = amag * h * (theta**3 + 1e-9) + floor + 10 * err
+        worst = max(worst, d / tol)
+        if len(active) > 1:
+            together += 1
+        else:
+            alone_steps += 1
+        if d > tol:
+            raise Violation("burns-together" if len(active) > 1 else "burn-full-step",
+                            f"step {j} -> {j + 1} ([{lo / 1e6}, {hi / 1e6}] s) lies inside {len(active)} burn(s) "
+                            f"{[(s_[0] / 1e6, s_[1] / 1e6) for s_ in sched if s_[0] <= lo and hi <= s_[1]]} (maneuvers listed "
+                            f"in order {case['order']}): velocity gained {res[j][3:].tolist()} m/s over a free step, the sum "
+                            f"of the thrusts {[list(map(float, a)) for a, _ in active]} m/s^2 along "
+                            f"{[f for _, f in active]} gives {want[3:].tolist()} (diff {d:.6g}, tol {tol:.3g})",
+                            step=j, nactive=len(active))
+    # the end state against the reference integration of the whole schedule (loose: quadrature of the edges)
+    t_end = n * h
+    ref, err = ig.propagate_with_schedule(c0, t_end, mu, [(a / 1e6, b / 1e6, acc, f) for a, b, acc, f in sched])
+    free_lib = np.asarray(ys[0], float)
+    for _ in range(n):
+        free_lib = np.asarray(ig.rk4_step(free_lib, h, mu))
+    free_ref = tb.propagate_uv(c0, t_end, mu)
+    D = (ys[-1] - free_lib) - (ref - free_ref)
+    amax = sum(float(np.linalg.norm(s_[2])) for s_ in sched)
+    total = sum(float(np.linalg.norm(s_[2])) * (s_[1] - s_[0]) / 1e6 for s_ in sched)
+    vmin = min(vperp(y) for y in ys)
+    first = min(s_[0] for s_ in sched)
+    sweep = sum(theta_of(ys, j, h, mu) for j in range(n) if (j + 1) * h_us > first) + total / vmin
+    vtol = amax * h * len(sched) * (1 + 3 * sweep) + 1e-9 + 10 * err
+    vtol += total / vnorm * float(np.linalg.norm(free_lib[3:] - free_ref[3:])) * 10
+    ptol = vtol * (t_end - first / 1e6) + total / vnorm * float(np.linalg.norm(free_lib[:3] - free_ref[:3])) * 10 + 1e-6
+    ev, ep = float(np.linalg.norm(D[3:])), float(np.linalg.norm(D[:3]))
+    if ev > vtol or ep > ptol:
+        raise Violation("burns-end-state", f"effect of the {len(sched)} burns ({case['pattern']}) on the end state differs from "
+                        f"the reference integration by {ep:.6g} m, {ev:.6g} m/s (allowance {ptol:.3g} m, {vtol:.3g} m/s)",
+                        ev=ev, ep=ep)
+    cls = [f"pattern:{case['pattern']}", f"order:{''.join(map(str, case['order']))}",
+           "steps-with-2+-burns" if together else "no-step-inside-two-burns"] + spelling_classes(sp)
+    return dict(nt=together > 0, cls=cls, ratio=worst, parts=dict(end=max(ev / vtol, ep / ptol)))
+
+
 # ------------------------------------------------------------------ requests that start later than the orbit's date
 
 
@@ -1663,6 +1822,9 @@ FACETS = [
     Facet("continuous_delivery", lambda s, t: continuous_case(), check_continuous, setup=setup,
           rule="a burn edge off the integration grid, or a hyperbolic state",
           quick=(16, 20), thorough=(32, 200)),
+    Facet("overlapping_burns", lambda s, t: overlap_case(), check_overlap, setup=setup,
+          rule="at least one whole integration step lies inside two or more burns",
+          quick=(8, 60), thorough=(16, 600)),
     Facet("dkep", lambda s, t: dkep_case(), check_dkep, setup=setup,
           rule="every case; classes tiny-or-zero (|da| <= 10 m, plane change <= 1e-6 rad, all zero) and hyperbolic reported",
           quick=(4, 600), thorough=(8, 6000)),
